@@ -63,13 +63,20 @@ def _back(args):
     p = _P
     I = absint.Interp(p)
     rec = {"read": [], "write": [], "alu": []}
+    marks = {}
+
+    def mark(I_, st, what, body, ln):
+        if what in marks:
+            I_.store_to(st, marks[what], (), Opaque("CALLED"), False, body, ln)
 
     def m_read(I_, st, depth, callee, args_, body, ln):
         rec["read"].append(tag(args_[1]))
+        mark(I_, st, "read", body, ln)
         return Opaque("BUS")
 
     def m_write(I_, st, depth, callee, args_, body, ln):
         rec["write"].append((tag(args_[1]), tag(args_[2])))
+        mark(I_, st, "write", body, ln)
         return Agg(())
 
     def m_from(I_, st, depth, callee, args_, body, ln):
@@ -93,6 +100,8 @@ def _back(args):
                                        "pending_flag_write": En({0: ()})})
     st = absint.State()
     ma = step.new_machine(p, I, st, ov)
+    for what in ("read", "write"):
+        marks[what] = I.new_alloc(st, "mark-" + what, Opaque("NOT-CALLED"))
     I.events.clear()
     cur = Agg((Ref(ma, (), True),))
     for s in step.STAGES:
@@ -100,6 +109,11 @@ def _back(args):
         if cur is BOT:
             break
     bad = [repr(e) for e in I.events if e.kind in step.BAD_EVENTS][:3]
+    # a bus access that the word asks for happens on every path (a path around the call leaves the join of both markers)
+    for what in ("read", "write"):
+        mv = I.load(st, marks[what], ())
+        if rec[what] and mv != Opaque("CALLED"):
+            bad.append("the bus %s is skipped on some path (depends on machine state other than the control word)" % what)
     prw = step.field(p, I, st, ma, "pending_register_write")
     pfw = step.field(p, I, st, ma, "pending_flag_write")
     lbr = step.field(p, I, st, ma, "last_bus_read")
@@ -136,6 +150,16 @@ def _commit(k):
         def mk(nm):
             def m(I_, st, depth, callee, args_, body, ln):
                 rec["flags"].setdefault(nm, []).append(tag(args_[1]))
+                # make the flag update visible in R4, so that its order relative to the register write shows
+                r = args_[0]
+                ci = p.field_index("L::machine::register::Register", "content")
+                if isinstance(r, Ref):
+                    regs_ = I_.load(st, r.alloc, tuple(r.path) + (ci,))
+                    if isinstance(regs_, Arr) and len(regs_.e) == 8:
+                        old4 = tag(regs_.e[4])
+                        if not str(old4).startswith("F("):
+                            I_.store_to(st, r.alloc, tuple(r.path) + (ci,),
+                                        Arr(regs_.e[:4] + (Opaque("F(%s)" % old4),) + regs_.e[5:]), False, body, ln)
                 return Agg(())
             return m
         I.fn_overrides[path] = mk(nm)
